@@ -175,3 +175,405 @@ def h_any(c, cls, t):
         c.loop(QF + ".PaddingFrame.__init__", "for i, byte in enumerate(payload)", invariant=lambda e: True)
     out = c.new(QF + "." + cls, payload, c.opaque("src_packet"))
     any_contract(c, out, cls, payload)
+
+
+# ------------------------------------------------------------------------------------------------
+# ACK (RFC 9000 19.3): the only constructor with a loop of symbolic trip count -> loop contract
+
+def _native_pairs_end(R, count):
+    """native replay: offsets of `count` varint pairs in R, or None"""
+    pos = 0
+    for _ in range(2 * count):
+        if pos >= len(R):
+            return None
+        pos += 1 << (R[pos] >> 6)
+    return pos if pos <= len(R) else None
+
+
+ACK_CASES = [(0x02, None, None)] + [(0x03, a, b) for a in (1, 2, 4, 8) for b in (1, 2, 4, 8)]
+
+
+def enc_varint_any_width(c, name):
+    """a varint whose WIDTH is symbolic too: any region E with len(E) == RFC length of E[0]; its field
+    value is the RFC value of E (varint.roundtrip proves this is the same relation as enc_varint).
+    Returns (bytes, value, width) without splitting the path."""
+    from contracts.quic_varint import varint_len_merged, varint_value_merged
+    E = c.bytes(name, min_len=1, max_len=8)
+    w = len_(E)
+    c.assume(w == varint_len_merged(c, E[0]))
+    return E, varint_value_merged(c, E, w), w
+
+
+@harness("C17", "frame.wf.ack", functions=[QF + ".AckFrame.__init__"], cases=[(0x02, "sym", None), (0x03, "sym", None)])
+def h_wf_ack_q(c, t, fw0, fw1):
+    return h_wf_ack(c, t, fw0, fw1)
+
+
+@harness("C17", "frame.wf.ack.enum", functions=[QF + ".AckFrame.__init__"], cases=ACK_CASES, tier="thorough")
+def h_wf_ack(c, t, fw0, fw1):
+    """payload = t ++ largest ++ delay ++ count ++ first ++ R ++ [ect0 ect1 ce] ++ rest, where the region R
+    is `count` pairs of varints (ghost: pos(i) = offset of pair i in R; pos(0)=0, pos(count)=len(R))."""
+    ws, vals, parts = [], [], [const(bytes([t]))]
+    sym = fw0 == "sym"
+    for i in range(4):
+        if sym:
+            e, v, w = enc_varint_any_width(c, "e%d" % i)
+            parts.append(e)
+        else:
+            fixed = (fw0, fw1, None, None)[i]
+            w = fixed if fixed is not None else c.choice("w%d" % i, [1, 2, 4, 8])
+            v = c.int("f%d" % i, 0, 2 ** (8 * w - 2) - 1)
+            parts.append(enc_varint(c, "e%d" % i, v, w))
+        ws.append(w)
+        vals.append(v)
+    count = vals[2]
+    H = 1 + sum(ws)
+    R = c.bytes("R")
+    Rlen = len_(R)
+    ecn_vals, ecn_len, ecn_parts = [], 0, []
+    if t == 0x03:
+        for i in range(4, 7):
+            if sym:
+                e, v, w = enc_varint_any_width(c, "e%d" % i)
+                ecn_parts.append(e)
+            else:
+                w = c.choice("w%d" % i, [1, 2, 4, 8])
+                v = c.int("f%d" % i, 0, 2 ** (8 * w - 2) - 1)
+                ecn_parts.append(enc_varint(c, "e%d" % i, v, w))
+            ecn_len += w
+            ecn_vals.append(v)
+    rest = c.bytes("rest")
+    payload = cat(*(parts + [R] + ecn_parts + [rest]))
+    if c.native:
+        c.assume(_native_pairs_end(R, count) == len(R))
+    else:
+        from contracts.quic_varint import varint_len_merged
+        pos = c.uf("ackpos")
+        c.assume(pos(0) == 0)
+        c.assume(pos(count) == Rlen)
+
+        def unfold(phase, e):
+            # the well-formedness of R instantiated at the loop's current pair (ghost unfolding)
+            if phase != "havoc":
+                return
+            i = e.it
+            a = pos(i)
+            w1 = varint_len_merged(c, R[a])
+            w2 = varint_len_merged(c, R[a + w1])
+            c.assume((i >= count) | ((a >= 0) & (a + w1 < Rlen) & (pos(i + 1) == a + w1 + w2) & (pos(i + 1) <= Rlen)))
+
+        c.loop(QF + ".AckFrame.__init__", "for i in range(0, self.range_count)",
+               invariant=lambda e: (e.index == H + pos(e.it)) & (e.self.attrs["length"] == e.index)
+               & (pos(e.it) >= 0) & (pos(e.it) <= Rlen),
+               ghost_step=unfold)
+    src = c.opaque("src_packet")
+    out = c.new(QF + ".AckFrame", payload, src)
+    c.ensure("no_raise", out.exc is None, kind="raises")
+    if out.exc is not None:
+        return
+    fr = out.value
+    c.ensure("length", c.get(fr, "length") == H + Rlen + ecn_len)
+    c.ensure("frame_type", c.get(fr, "frame_type") == t)
+    for attr, v in zip(["largest_acknowledged", "ack_delay", "range_count", "first_ack_range"], vals):
+        c.ensure("field." + attr, c.get(fr, attr) == v)
+    for attr, v in zip(["ect_0_count", "ect_1_count", "ect_ce_count"], ecn_vals):
+        c.ensure("field." + attr, c.get(fr, attr) == v)
+    c.cover("reached")
+
+
+@harness("C17", "frame.wf.padding", functions=[QF + ".PaddingFrame.__init__"])
+def h_wf_padding(c):
+    """a maximal run of k >= 1 PADDING bytes followed by nothing or by a non-zero byte is ONE frame of
+    length k (RFC 9000 19.1 makes each 0x00 a frame; the parser merges the run - same bytes accounted)."""
+    k = c.int("k", 1, None)
+    rest = c.bytes("rest")
+    c.assume((len_(rest) == 0) | (rest[0] != 0))
+    payload = cat(c.fill(0, k), rest)
+    c.loop(QF + ".PaddingFrame.__init__", "for i, byte in enumerate(payload)", invariant=lambda e: e.it <= k)
+    out = c.new(QF + ".PaddingFrame", payload, c.opaque("src_packet"))
+    c.ensure("no_raise", out.exc is None, kind="raises")
+    if out.exc is None:
+        c.ensure("length", c.get(out.value, "length") == k)
+        c.ensure("frame_type", c.get(out.value, "frame_type") == 0)
+
+
+# ------------------------------------------------------------------------------------------------
+# parse_frames: dispatch, termination on arbitrary bytes, exact split of a well-formed sequence
+
+ALL_CLASSES = sorted({c for c, _ in ANY_CASES})
+RFC_DISPATCH = {}          # RFC 9000 table 3 / RFC 9221: first byte -> frame class
+for _c, _t in ANY_CASES:
+    if _t is not None:
+        RFC_DISPATCH[_t] = _c
+
+
+def rfc_class_of(b0):
+    return RFC_DISPATCH.get(b0, "GenericFrame")
+
+
+def _suffix_of(p, orig):
+    """p == orig[k:] for some k, decided structurally (windows of the same base) + one LIA fact"""
+    from pyvc.api import MODE
+    if MODE == "native":
+        return bytes(orig).endswith(bytes(p))
+    from pyvc.core import BSlice, BList, to_bytes_val
+    p = to_bytes_val(p)
+    if p is orig:
+        return True
+    if isinstance(p.length, int) and p.length == 0:
+        return True
+    if isinstance(p, BSlice) and p.base is orig:
+        return (p.start + p.length == len_(orig)) & (p.start >= 0)
+    return False
+
+
+def _offset_in(p, orig):
+    from pyvc.core import BSlice, to_bytes_val
+    p = to_bytes_val(p)
+    if p is orig:
+        return 0
+    if isinstance(p, BSlice) and p.base is orig:
+        return p.start
+    return None
+
+
+def ctor_summary(cls_name):
+    """call-site contract of a frame constructor = its `any` contract (proved by frame.any for every class
+    and type byte) plus, when the caller's ghost says the bytes at this offset are a well-formed K frame of
+    length L, its `wf` contract (proved by frame.wf*: no exception, length == L)."""
+    def s(ctx, cls, payload, src_packet):
+        g = getattr(ctx, "ghost", None) or {}
+        L = ctx.fresh_int("frame_length", 1, None)
+        wf = False
+        if "dispatch" in g:
+            g["dispatch"](cls_name, payload)
+        if "wf_at" in g:
+            o = _offset_in(payload, g["orig"])
+            if o is not None:
+                wf = g["wf_at"](o, cls_name)
+                ctx.assume(implies_(wf, L == g["wf_len"](o)))
+        if ctx.nondet("ctor_raises"):
+            ctx.assume(bnot_(wf))
+            ctx.raise_("IndexError")
+        return ctx.make_obj(cls, length=L, src_packet=src_packet)
+    return s
+
+
+from pyvc.api import implies as implies_, bnot as bnot_  # noqa: E402
+
+for _cls in ALL_CLASSES:
+    summary(QF + "." + _cls + ".__init__")(ctor_summary(_cls))
+
+
+def _parse_loop(c, orig, frames_havoc=None, extra_inv=None):
+    def hv_payload(cur):
+        k = c.fresh_int("consumed", 0, None)
+        c.assume(k <= len_(orig))
+        from pyvc.api import slice_
+        return slice_(orig, k, None)
+
+    def inv(e):
+        r = _suffix_of(e.payload, orig)
+        if extra_inv is not None:
+            r = band(r, extra_inv(e))
+        return r
+
+    hv = {"payload": hv_payload}
+    if frames_havoc is not None:
+        hv["frames"] = frames_havoc
+    c.loop(QF + ".parse_frames", "while len(payload) != 0", invariant=inv, decreases=lambda e: len_(e.payload), havoc=hv)
+
+
+@harness("C17", "parse_frames.any", functions=[QF + ".parse_frames"])
+def h_parse_any(c):
+    """arbitrary bytes: the parser terminates (variant len(payload), strictly decreasing because every
+    constructor contract gives length >= 1), the remaining input is always a suffix of the packet, the class
+    chosen for every first byte is the RFC's, and the only exception is IndexError."""
+    orig = c.bytes("payload")
+    def dispatch(cls_name, payload):
+        # at an arbitrary iteration: the class instantiated for first byte b is the RFC's class of b
+        b0 = payload[0]
+        types = [t for t, k in RFC_DISPATCH.items() if k == cls_name]
+        if cls_name == "GenericFrame":
+            c.ensure("dispatch.unknown_type_only", band(*[b0 != t for t in RFC_DISPATCH]))
+        else:
+            from pyvc.api import bor
+            c.ensure("dispatch." + cls_name, bor(*[b0 == t for t in types]))
+        c.cover("dispatch." + cls_name)
+
+    if c.native:
+        # replay: the loop obligations quantify over an arbitrary iteration, i.e. an arbitrary suffix of the
+        # packet - so every suffix of the model's packet is tried as an input (follow-up search)
+        src = c.opaque("src_packet")
+        for k in range(2 * (min(len(orig), 400) + 1)):
+            data = orig[k // 2:] + (bytes(64) if k % 2 else b"")   # also with room after a truncated frame
+            out = c.call(QF + ".parse_frames", data, src)
+            if out.exc is not None:
+                c.ensure("exc_class", out.exc == "IndexError", kind="raises")
+                continue
+            off = 0
+            for f in out.value:
+                if off >= len(data):
+                    c.ensure("loop[while len(payload) != 0].variant", False)
+                    break
+                want = rfc_class_of(data[off])
+                c.ensure("dispatch." + ("unknown_type_only" if want == "GenericFrame" else type(f).__name__)
+                         if type(f).__name__ != want else "dispatch.ok", type(f).__name__ == want)
+                c.ensure("any.length_ge_1", f.length >= 1)
+                off += f.length
+        return
+    c.ghost = {"orig": orig, "dispatch": dispatch}
+    _parse_loop(c, orig)
+    out = c.call(QF + ".parse_frames", orig, c.opaque("src_packet"))
+    if out.exc is not None:
+        c.ensure("exc_class", out.exc == "IndexError", kind="raises")
+    c.cover("returned" if out.exc is None else "raised")
+
+
+h_parse_any.must_cover = ["returned", "raised"] + ["dispatch." + k for k in ALL_CLASSES]
+
+
+
+
+WF_CLASSES = [k for k in ALL_CLASSES if k != "GenericFrame"]
+CLS_IDX = {k: i for i, k in enumerate(ALL_CLASSES)}
+
+
+def rfc_split(b):
+    """independent reference splitter (native replays only): RFC layouts -> [(class, length)] or None"""
+    out, pos = [], 0
+    b = bytes(b)
+
+    def vint(p):
+        if p >= len(b):
+            raise IndexError
+        w = 1 << (b[p] >> 6)
+        if p + w > len(b):
+            raise IndexError
+        v = b[p] & 0x3f
+        for x in b[p + 1:p + w]:
+            v = v * 256 + x
+        return v, w
+    try:
+        while pos < len(b):
+            t = b[pos]
+            cls = RFC_DISPATCH.get(t)
+            if cls is None:
+                return None
+            p = pos + 1
+            if cls == "PaddingFrame":
+                while p < len(b) and b[p] == 0:
+                    p += 1
+            elif cls == "AckFrame":
+                vals = []
+                for _ in range(4):
+                    v, w = vint(p)
+                    p += w
+                    vals.append(v)
+                for _ in range(2 * vals[2] + (3 if t == 3 else 0)):
+                    v, w = vint(p)
+                    p += w
+            else:
+                vals = {}
+                for i, f in enumerate(layout_for(cls, t)):
+                    if f[0] == V:
+                        v, w = vint(p)
+                        p += w
+                        vals[f[1] if f[1] else "_len0"] = v
+                    elif f[0] == U8:
+                        vals[f[1]] = b[p]
+                        p += 1
+                    elif f[0] == BYTES:
+                        n = f[2]
+                        if cls == "DatagramFrame":
+                            n = vals["_len0"]
+                        elif isinstance(n, str):
+                            n = vals[n]
+                        p += n
+                    else:
+                        p = len(b)
+            if p > len(b):
+                return None
+            out.append((cls, p - pos))
+            pos = p
+    except IndexError:
+        return None
+    return out
+
+
+@harness("C17", "parse_frames.wf", functions=[QF + ".parse_frames"])
+def h_parse_wf(c):
+    """orig = F_0 ++ ... ++ F_{n-1}, every F_i a well-formed frame (n symbolic; ghost pos(i) = offset of
+    F_i, kcls(i) its class).  Then parse_frames raises nothing and returns exactly n frames, frame i being
+    of class kcls(i) with length pos(i+1)-pos(i): the frames tile the packet, every byte counted once."""
+    orig = c.bytes("payload")
+    src = c.opaque("src_packet")
+    if c.native:
+        want = rfc_split(orig)
+        c.assume(want is not None)
+        out = c.call(QF + ".parse_frames", orig, src)
+        c.ensure("no_raise", out.exc is None, kind="raises")
+        if out.exc is None:
+            got = [(type(f).__name__, f.length) for f in out.value]
+            c.ensure("count", len(got) == len(want))
+            c.ensure("tiling", got == want)
+        return
+    from pyvc.api import SymList, from_list, forall, bor
+    n = c.int("n", 0, None)
+    pos, kcls = c.uf("fpos"), c.uf("fcls")
+    wfk, wflen = c.uf("WFk"), c.uf("WFlen")
+    N = len_(orig)
+    c.assume(pos(0) == 0)
+    c.assume(pos(n) == N)
+
+    def project(fr):
+        return {"length": fr.attrs["length"], "cls": CLS_IDX[fr.cls.name]}
+
+    def as_sl(x):
+        return x if isinstance(x, SymList) else from_list(x, "frames", ["length", "cls"], project)
+
+    def wf_instance(j):
+        # the precondition "F_j is a well-formed frame of class kcls(j) at pos(j)" instantiated at j
+        a = pos(j)
+        starts = band(*[bor(kcls(j) != CLS_IDX[k], bor(*[orig[a] == t for t, kk in RFC_DISPATCH.items() if kk == k]))
+                        for k in WF_CLASSES])
+        known = bor(*[kcls(j) == CLS_IDX[k] for k in WF_CLASSES])
+        return bor(j >= n, band(a >= 0, pos(j + 1) - a >= 1, pos(j + 1) <= N, wfk(a) == kcls(j),
+                                wflen(a) == pos(j + 1) - a, starts, known,
+                                pos(j) < pos(n)))  # partial sums of positive lengths are strictly increasing
+
+    def off_of(p):
+        o = _offset_in(p, orig)
+        if o is None:
+            return N  # empty remainder
+        return o
+
+    def inv(e):
+        F = as_sl(e.frames)
+        j = F.length
+        return band(_suffix_of(e.payload, orig), off_of(e.payload) == pos(j), j >= 0, j <= n,
+                    forall(lambda i: (F.field("length", i) == pos(i + 1) - pos(i)) & (F.field("cls", i) == kcls(i)), 0, j))
+
+    def hv_payload(cur):
+        from pyvc.api import slice_
+        k = c.fresh_int("consumed", 0, None)
+        c.assume(k <= N)
+        return slice_(orig, k, None)
+
+    def unfold(phase, e):
+        if phase == "havoc":
+            c.assume(wf_instance(as_sl(e.frames).length))
+
+    c.ghost = {"orig": orig, "wf_at": lambda o, k: wfk(o) == CLS_IDX[k], "wf_len": lambda o: wflen(o)}
+    c.loop(QF + ".parse_frames", "while len(payload) != 0", invariant=inv, decreases=lambda e: len_(e.payload),
+           havoc={"payload": hv_payload, "frames": lambda cur: as_sl(cur).fresh("frames")}, ghost_step=unfold)
+    out = c.call(QF + ".parse_frames", orig, src)
+    c.ensure("no_raise", out.exc is None, kind="raises")
+    if out.exc is None:
+        F = as_sl(out.value)
+        c.ensure("count", F.length == n)
+        c.ensure("tiling", forall(lambda i: (F.field("length", i) == pos(i + 1) - pos(i)) & (F.field("cls", i) == kcls(i)), 0, n))
+        c.cover("returned")
+
+
+h_parse_wf.must_cover = ["returned"]
